@@ -657,6 +657,7 @@ template <class V, class Ch> void vec_one(std::string const &name, std::vector<i
   std::basic_ostringstream<Ch> os;
   os << v;
   str const text = os.str();
+  // vector/output.hpp, dim/output.hpp: "Uses the output format (a_1,a_2,...) where a_i are the vector's components"
   VRT_CHECK(os.good() && text == W(want), name + ":output", "%s output is %s want %s", chname, show(text).c_str(), want.c_str());
   auto parse = [&](str const &in, bool &ok) {
     V r{fcppt::no_init{}};
@@ -688,7 +689,10 @@ template <class V, class Ch> void vec_one(std::string const &name, std::vector<i
     spaced += (i ? ", " : "") + dec(comp[i]);
   spaced += ")";
   got = parse(W(spaced), ok);
-  VRT_CHECK(ok && got == comp, name + ":input_spaced", "%s: %s reads as ok=%d [%s]", chname, spaced.c_str(), int(ok), cstr(got).c_str());
+  // accepted by the current implementation and used by fcppt's own test, but the documentation only
+  // names the format "(a_1,a_2,...)": information, not a verdict
+  if (!(ok && got == comp))
+    vrt::count("info:vector_input_rejects_blank_after_comma");
   // every proper prefix of the text is incomplete: input must fail, not yield a shorter value
   for (std::size_t k = 0; k < want.size(); ++k)
   {
